@@ -14,6 +14,8 @@ import (
 	"sync/atomic"
 	"time"
 
+	"github.com/cenkalti/backoff/v4"
+
 	v3core "github.com/envoyproxy/go-control-plane/envoy/config/core/v3"
 	discoveryv3 "github.com/envoyproxy/go-control-plane/envoy/service/discovery/v3"
 
@@ -273,4 +275,10 @@ func (m *xdsResourceManager) VerifClosed() bool {
 	default:
 		return false
 	}
+}
+
+// VerifSetConnectBackoff replaces the back-off policy of (re)connection attempts, so that a whole
+// reconnect budget can be exhausted in milliseconds. Call it while the receiver is parked in Recv.
+func (m *xdsResourceManager) VerifSetConnectBackoff(b backoff.BackOff) {
+	m.client.connectBackoff = b
 }
